@@ -468,7 +468,26 @@ type c16Stats struct {
 	timeout     bool
 }
 
-type c16Pending struct{ sig, msg string }
+type c16Pending struct{ sig, msg, coarse string }
+
+// A worker keeps at most 200 signatures. One defect in how snapshots are kept shows after almost every operation
+// and would fill all of them with (operation x cursor state x probe) classes of the search, leaving none for the
+// families that run after it: the search reports its first c16FineSigs classes as they are and every further one
+// under the coarse class (table kind, kind of disagreement).
+const c16FineSigs = 60
+
+var c16Reported = map[string]bool{}
+
+func c16Sig(p c16Pending) string {
+	if c16Reported[p.sig] || p.coarse == "" {
+		return p.sig
+	}
+	if len(c16Reported) < c16FineSigs {
+		c16Reported[p.sig] = true
+		return p.sig
+	}
+	return p.coarse
+}
 
 // c16Validate runs one case; a case in which csvq gave up waiting for a lock (only possible when the machine
 // stalls for the whole wait time, there is no second process) is run a second time before it is believed.
@@ -479,7 +498,7 @@ func c16Validate(c *core.Ctx, cfg *c16Cfg, dir string, path []cm.Op, op cm.Op, v
 		pend, st = c16ValidateOnce(cfg, dir, path, op, verbose)
 	}
 	for _, p := range pend {
-		c.Violate(p.sig, p.msg, c16Payload{Cfg: cfg.ID, Path: path, Op: op})
+		c.Violate(c16Sig(p), p.msg, c16Payload{Cfg: cfg.ID, Path: path, Op: op})
 	}
 	return st
 }
@@ -489,7 +508,7 @@ func c16Validate(c *core.Ctx, cfg *c16Cfg, dir string, path []cm.Op, op cm.Op, v
 func c16ValidateOnce(cfg *c16Cfg, dir string, path []cm.Op, op cm.Op, verbose bool) (pend []c16Pending, st c16Stats) {
 	x, err := c16Start(cfg, dir, verbose)
 	if err != nil {
-		pend = append(pend, c16Pending{"harness|prelude", err.Error()})
+		pend = append(pend, c16Pending{sig: "harness|prelude", msg: err.Error()})
 		st.timeout = x != nil && x.timeout
 		return
 	}
@@ -508,10 +527,14 @@ func c16ValidateOnce(cfg *c16Cfg, dir string, path []cm.Op, op cm.Op, verbose bo
 		return "[" + cfg.ID + "] " + strings.Join(parts, "; ")
 	}
 	report := func(sig string, d *c16Div, hist string) {
+		coarse := cfg.Src + "|further operations and cursor states|" + d.What
+		if d.Soft || sig == c16SigWrap {
+			coarse = ""
+		}
 		if d.Soft {
 			sig = d.What
 		}
-		pend = append(pend, c16Pending{sig, hist + "\n" + d.Msg})
+		pend = append(pend, c16Pending{sig, hist + "\n" + d.Msg, coarse})
 	}
 
 	s := cm.State{Table: cfg.Initial, Committed: cfg.Initial}
@@ -558,12 +581,12 @@ func c16ValidateOnce(cfg *c16Cfg, dir string, path []cm.Op, op cm.Op, verbose bo
 	r := x.exec("SELECT id, v FROM " + cfg.Tbl + ";")
 	if r.Err != nil || r.Panic != nil || len(r.Views) != 1 {
 		pend = append(pend, c16Pending{fmt.Sprintf("%s|%s on %s|underlying table unreadable afterwards", cfg.Src, c16OpClass(op), pre.Class()),
-			fmt.Sprintf("%s\nSELECT from the underlying table fails: %v %v", history(len(path)+1), r.Err, r.Panic)})
+			fmt.Sprintf("%s\nSELECT from the underlying table fails: %v %v", history(len(path)+1), r.Err, r.Panic), cfg.Src + "|further operations and cursor states|underlying table unreadable afterwards"})
 		return
 	}
 	if g := c16ViewRows(r.Views[0]); !cm.SameRows(g, s.Table) {
 		pend = append(pend, c16Pending{fmt.Sprintf("%s|%s on %s|contents of the underlying table", cfg.Src, c16OpClass(op), pre.Class()),
-			fmt.Sprintf("%s\nunderlying table is %s, the modelled statements give %s", history(len(path)+1), cm.RowsKey(g), cm.RowsKey(s.Table))})
+			fmt.Sprintf("%s\nunderlying table is %s, the modelled statements give %s", history(len(path)+1), cm.RowsKey(g), cm.RowsKey(s.Table)), cfg.Src + "|further operations and cursor states|contents of the underlying table"})
 	}
 	return
 }
